@@ -143,7 +143,22 @@ class FakeContent:
                 return
             if isinstance(item, BaseException):
                 raise item
-            yield item
+            # how the bytes of the stream are cut into network reads is not the API's business: a line may arrive in pieces,
+            # its newline apart from it (cluster.chunking is a scenario dimension; the pieces follow each other at once)
+            mode = getattr(w.cluster, 'chunking', None)
+            if mode == 'newline-apart' and isinstance(item, bytes) and len(item) > 1 and item.endswith(b'\n'):
+                yield item[:-1]
+                yield item[-1:]
+            elif mode == 'halves' and isinstance(item, bytes) and len(item) > 2:
+                yield item[:len(item) // 2]
+                yield item[len(item) // 2:]
+            elif mode == 'thirds' and isinstance(item, bytes) and len(item) > 3:
+                k = len(item) // 3
+                yield item[:k]
+                yield item[k:-1]
+                yield item[-1:]
+            else:
+                yield item
 
 
 class FakeResponse:
@@ -288,6 +303,7 @@ class FakeCluster:
         self.uid_seq = 0
         self.req_seq = 0
         self.resdefs = {}
+        self.chunking = None      # None | 'newline-apart' | 'halves' | 'thirds': how watch lines are cut into reads
         self.preferred = {}       # API group -> its preferred version (default: the first one in sorted order)
         self.objects = {}        # (rkey, ns, name) -> body
         self.log = {}            # rkey -> [(rv:int, type, body)]
